@@ -2,6 +2,7 @@
 import importlib
 
 MODULES = [
+    "contracts.lem_expr",
 ]
 
 
